@@ -125,12 +125,52 @@ def observe(prog, opts, envs):
     return obs
 
 
+def _is_num_list(x):
+    return isinstance(x, (list, tuple)) and all(isinstance(v, float) for v in x)
+
+
 def same(a, b):
+    """numerically the same: per element RELATIVE 1e-9, plus a floor of 1e-13 of the largest entry of the vector
+    (so that rounding noise in a cancelling row of an otherwise O(1) vector does not count, while a change in a row
+    whose terms are all tiny does)"""
+    import math
+    if _is_num_list(a) and _is_num_list(b):
+        if len(a) != len(b):
+            return False
+        fin = [abs(v) for v in list(a) + list(b) if math.isfinite(v)]
+        scale = max(fin) if fin else 0.0
+        for x, y in zip(a, b):
+            if math.isnan(x) or math.isnan(y):
+                if not (math.isnan(x) and math.isnan(y)):
+                    return False
+            elif math.isinf(x) or math.isinf(y):
+                if x != y:
+                    return False
+            elif abs(x - y) > 1e-9 * max(abs(x), abs(y)) + 1e-13 * scale:
+                return False
+        return True
     if isinstance(a, (list, tuple)) and isinstance(b, (list, tuple)):
         return len(a) == len(b) and all(same(x, y) for x, y in zip(a, b))
     if isinstance(a, float) and isinstance(b, float):
-        return ir_eval.close(a, b) or ir_eval.close(b, a)
+        return same([a], [b])
     return a == b
+
+
+BASES = ({}, {"expand_vectors": True})      # the 8 representation sets are compared on top of each base option set
+
+
+def expanded_names(env):
+    """env of array values -> additionally the scalars name[i] / name[i,j] / der(name[i]) that expand_vectors creates"""
+    out = dict(env)
+    for name, val in env.items():
+        sh = val["sh"]
+        if not sh:
+            continue
+        pre, core, post = ("der(", name[4:-1], ")") if name.startswith("der(") else ("", name, "")
+        idx = [(i,) for i in range(1, sh[0] + 1)] if len(sh) == 1 else [(i, j) for i in range(1, sh[0] + 1) for j in range(1, sh[1] + 1)]
+        for k, t in enumerate(idx):
+            out["%s%s[%s]%s" % (pre, core, ",".join(map(str, t)), post)] = {"sh": [], "d": [val["d"][k]]}
+    return out
 
 
 def random_envs(env, seed, n=2):
@@ -160,6 +200,7 @@ def judge_group(args):
         for n in pinned:
             e[n] = envs[0][n]
         envs.append(e)
+    envs = [expanded_names(e) for e in envs]
     ref = observe(prog, options_of(base["opt"]), envs)
     info = {"default": "exc" if "exc" in ref else "ok", "spec": "n/a"}
     exp = base["expect"]
@@ -173,41 +214,46 @@ def judge_group(args):
                 ok = False
         info["spec"] = "agrees" if ok else "differs"
     recs = []
-    for it in group[1:]:
-        o = observe(prog, options_of(it["opt"]), envs)
-        flags = ["%s=%d" % (real, int(bool(it["opt"][k]))) for k, real in OPT_KEYS]
-        default = {"unroll_loops": 1, "inline_functions": 1, "expand_mx": 0}
-        tags = sorted(set(it["tags"]) | {"opt:" + f for f in flags if int(f[-1]) != default[f[:-2]]})   # the toggled options
+    for bi, base_opts in enumerate(BASES):
+        # the default representation set on top of this base option set is the reference of its 8 runs
+        bref = ref if bi == 0 else observe(prog, dict(base_opts, **options_of(base["opt"])), envs)
+        btag = [] if bi == 0 else ["base:" + ",".join("%s=%s" % kv for kv in sorted(base_opts.items()))]
+        for it in group[1:]:
+            o = observe(prog, dict(base_opts, **options_of(it["opt"])), envs)
+            flags = ["%s=%d" % (real, int(bool(it["opt"][k]))) for k, real in OPT_KEYS]
+            default = {"unroll_loops": 1, "inline_functions": 1, "expand_mx": 0}
+            tags = sorted(set(it["tags"]) | set(btag) | {"opt:" + f for f in flags if int(f[-1]) != default[f[:-2]]})   # the toggled options
 
-        def rec(obs_, detail, exc=None):
-            r = {"observable": obs_, "tags": tags, "exception_type": exc, "detail": "options %s vs default: %s" % (flags, detail),
-                 "sigdetail": ",".join(sorted(t for t in tags if t.startswith("opt:")))}
-            return r
-        if ("exc" in ref) != ("exc" in o):
-            recs.append(rec("raises-depends-on-options", "default %s, here %s" % (ref.get("exc", "ok"), o.get("exc", "ok")),
-                            (o.get("exc") or ref.get("exc"))["exception_type"]))
-            continue
-        if "exc" in ref:
-            continue
-        def compare(o_, r_, suffix):
-            if ("exc" in o_) or ("exc" in r_):
-                if o_.get("exc") != r_.get("exc"):
-                    recs.append(rec("raises-depends-on-options" + suffix, "%s vs %s" % (o_.get("exc", "ok"), r_.get("exc", "ok"))))
-                return
-            for key, obsname in (("vars", "variables-differ"), ("types", "variables-differ"), ("outputs", "outputs-differ"),
-                                 ("delay_states", "delay-states-differ")):
-                if o_[key] != r_[key]:
-                    recs.append(rec(obsname + suffix, "%s: %s vs %s" % (key, o_[key], r_[key])))
-            if o_.get("fn_exc") != r_.get("fn_exc") or o_.get("unknown") != r_.get("unknown"):
-                recs.append(rec("function-construction-differs" + suffix, "%s vs %s" % (o_.get("fn_exc") or o_.get("unknown"), r_.get("fn_exc") or r_.get("unknown"))))
-            for key, obsname in (("dae", "dae-residual-differs"), ("init", "initial-residual-differs"), ("meta", "metadata-function-differs"),
-                                 ("delay", "delay-arguments-differ"), ("attrs", "variable-attributes-differ")):
-                if not same(o_["vals"][key], r_["vals"][key]):
-                    k = next((i for i, (x, y) in enumerate(zip(o_["vals"][key], r_["vals"][key])) if not same(x, y)), 0)
-                    recs.append(rec(obsname + suffix, "point %d: %s vs %s" % (k, str(o_["vals"][key][k:k + 1])[:200], str(r_["vals"][key][k:k + 1])[:200])))
-        compare(o, ref, "")
-        for phase in ("after-edit", "after-resimplify"):
-            compare(o["later"][phase], ref["later"][phase], "-" + phase)
+            def rec(obs_, detail, exc=None, tags=tags, flags=flags):
+                return {"observable": obs_, "tags": tags, "exception_type": exc,
+                        "detail": "options %s%s vs the default representation set: %s" % (flags, " on " + btag[0] if btag else "", detail),
+                        "sigdetail": ",".join(sorted(t for t in tags if t.startswith(("opt:", "base:"))))}
+            if ("exc" in bref) != ("exc" in o):
+                recs.append(rec("raises-depends-on-options", "default %s, here %s" % (bref.get("exc", "ok"), o.get("exc", "ok")),
+                                (o.get("exc") or bref.get("exc"))["exception_type"]))
+                continue
+            if "exc" in bref:
+                continue
+
+            def compare(o_, r_, suffix, rec=rec):
+                if ("exc" in o_) or ("exc" in r_):
+                    if o_.get("exc") != r_.get("exc"):
+                        recs.append(rec("raises-depends-on-options" + suffix, "%s vs %s" % (o_.get("exc", "ok"), r_.get("exc", "ok"))))
+                    return
+                for key, obsname in (("vars", "variables-differ"), ("types", "variables-differ"), ("outputs", "outputs-differ"),
+                                     ("delay_states", "delay-states-differ")):
+                    if o_[key] != r_[key]:
+                        recs.append(rec(obsname + suffix, "%s: %s vs %s" % (key, o_[key], r_[key])))
+                if o_.get("fn_exc") != r_.get("fn_exc") or o_.get("unknown") != r_.get("unknown"):
+                    recs.append(rec("function-construction-differs" + suffix, "%s vs %s" % (o_.get("fn_exc") or o_.get("unknown"), r_.get("fn_exc") or r_.get("unknown"))))
+                for key, obsname in (("dae", "dae-residual-differs"), ("init", "initial-residual-differs"), ("meta", "metadata-function-differs"),
+                                     ("delay", "delay-arguments-differ"), ("attrs", "variable-attributes-differ")):
+                    if not same(o_["vals"][key], r_["vals"][key]):
+                        k = next((i for i, (x, y) in enumerate(zip(o_["vals"][key], r_["vals"][key])) if not same(x, y)), 0)
+                        recs.append(rec(obsname + suffix, "point %d: %s vs %s" % (k, str(o_["vals"][key][k:k + 1])[:200], str(r_["vals"][key][k:k + 1])[:200])))
+            compare(o, bref, "")
+            for phase in ("after-edit", "after-resimplify"):
+                compare(o["later"][phase], bref["later"][phase], "-" + phase)
     return recs, info
 
 
@@ -227,7 +273,7 @@ def run(ctx):
         stat = {"default-exc": 0, "spec-agrees": 0, "spec-differs": 0, "spec-n/a": 0}
         res = pmap(judge_group, [(g, ctx.seed + i) for i, g in enumerate(glist)])
         for g, (recs, info) in zip(glist, res):
-            ctx.programs += 8
+            ctx.programs += 8 * len(BASES)
             ctx.traces += 1
             stat["spec-" + info["spec"]] += 1
             if info["default"] == "exc":
@@ -236,7 +282,7 @@ def run(ctx):
                 cov[t] = cov.get(t, 0) + 1
             for r in recs:
                 ctx.violation(r, {"group": g, "seed": ctx.seed + glist.index(g)})
-        for t in ("k:for", "op:f", "delay", "with-attributes", "fn:k:forst", "fn:k:ifst", "call-in-loop", "initial"):
+        for t in ("k:for", "op:f", "delay", "with-attributes", "tiny-coefficients", "fn:k:forst", "fn:k:ifst", "call-in-loop", "initial"):
             if not cov.get(t):
                 raise MachineryError("vacuous: no program with shape tag %s" % t)
         if stat["spec-agrees"] == 0:
